@@ -353,3 +353,11 @@ def check_choice(eng, desc, spec, dispatcher, kind, r, sid, avail, recorder, tag
                     strict = vor(vecs[sid][i] > vecs[o][i], vand(veq(vecs[sid][i], vecs[o][i]), strict))
                 conds.append(strict)
     eng.prove(vand(conds) if conds else True, key)
+
+
+def big_models(sp):
+    # solver-chosen large models (>= 2**24+1), run on the un-instrumented library; not for the rules that read the float32 job
+    # features of DurationObserver (most work remaining, direct-vs-observer twin): float32 rounding of features is outside the claim
+    kind, r = sp["rule"]
+    names = [r] if isinstance(r, str) else list(r or ["most_work_remaining"])
+    return not any("most_work_remaining" in n for n in names) and not sp.get("preobs")
